@@ -313,6 +313,11 @@ def finalize(stats):
         return []
     n = st_['evaluations']
     hits = st_['known_hits'].get('solve:wrong-geometry:mirrored-initial-estimate', 0)
+    res = []
     if n >= 100 and hits > 0.10 * n:
-        return [('solve:mirrored-rate', '%d of %d rooms ended in a mirrored local minimum (baseline 2-5 %%, bound 10 %%)' % (hits, n), {'rooms': n, 'mirrored': hits})]
-    return []
+        res.append(('solve:mirrored-rate', '%d of %d rooms ended in a mirrored local minimum (baseline 2-5 %%, bound 10 %%)' % (hits, n), {'rooms': n, 'mirrored': hits}))
+    dropped = st_['known_hits'].get('estimate:clean-samples-dropped:mirror-cluster-chosen', 0)
+    if n >= 100 and dropped > max(3, 0.03 * n):
+        res.append(('estimate:dropped-rate', '%d of %d rooms had error-free samples discarded as outliers (baseline below 1 %%, bound 3 %%)' % (dropped, n),
+                    {'rooms': n, 'dropped': dropped}))
+    return res
